@@ -242,7 +242,9 @@ func extractC18() *lean {
 					}
 					flow = append(flow, strings.Join(ls, ", ")+" "+x.Tok.String()+" "+strings.Join(rs, ", "))
 				case *ast.ExprStmt:
-					flow = append(flow, "call "+condString(x.X))
+					if cs := condString(x.X); !strings.HasPrefix(cs, "log.") { // logging is not control flow
+						flow = append(flow, "call "+cs)
+					}
 				case *ast.DeferStmt:
 					return false
 				case *ast.BranchStmt:
